@@ -189,6 +189,83 @@ def route_table(repo, fns, reach):
     return rows, notes
 
 
+def enclosing_blocks(src, pos):
+    """headers (text before `{`) of the blocks that lexically enclose position pos, innermost last"""
+    stack = []
+    i = 0
+    last = 0
+    while i < pos:
+        ch = src[i]
+        if ch == "{":
+            # header = text since the previous `;`, `{` or `}`
+            j = max(src.rfind(";", 0, i), src.rfind("{", 0, i), src.rfind("}", 0, i))
+            stack.append(src[j + 1:i].strip())
+        elif ch == "}":
+            if stack:
+                stack.pop()
+        i += 1
+    return stack
+
+
+def sidecar_guard_facts(repo, fns):
+    """(rebuild guarded, ids minted, cache append keyed by the event) + notes"""
+    notes = []
+    p = os.path.join(repo, "crates", "ripd", "src", "continuities.rs")
+    src = strip_tests(strip_comments(open(p).read()))
+    # 1. every rebuild_best_effort( call sits inside `if !events.is_empty()`
+    calls = [m.start() for m in re.finditer(r"\.\s*rebuild_best_effort\s*\(", src)]
+    guarded = bool(calls)
+    for c in calls:
+        arg = re.match(r"\.\s*rebuild_best_effort\s*\(\s*(\w+)\s*,\s*&(\w+)\s*\)", src[c:c + 200])
+        blocks = enclosing_blocks(src, c)
+        ok = arg is not None and any(re.fullmatch(r"if\s*!\s*" + re.escape(arg.group(2)) + r"\s*\.\s*is_empty\s*\(\s*\)", b) for b in blocks)
+        if not ok:
+            guarded = False
+            notes.append("continuities.rs: a rebuild_best_effort call is not inside `if !<events>.is_empty()`: enclosing blocks " + " > ".join(b[:40] for b in blocks[-3:]))
+    notes.append(f"continuities.rs: {len(calls)} rebuild_best_effort call(s), all guarded by a non-empty replay: {guarded}")
+    # 2. new thread ids are minted by the store
+    minted = True
+    n_sites = 0
+    for m in re.finditer(r"\bself\s*\.\s*(create_continuity(?:_locked)?)\s*\(", src):
+        depth, j = 1, m.end()
+        while depth > 0 and j < len(src):
+            depth += {"(": 1, ")": -1}.get(src[j], 0)
+            j += 1
+        args = [a.strip() for a in re.split(r",(?![^()]*\))", src[m.end():j - 1]) if a.strip()]
+        idarg = args[1] if m.group(1) == "create_continuity" else (args[2] if len(args) > 2 else "?")
+        n_sites += 1
+        ok = idarg in ("None", "continuity_id")
+        mm = re.fullmatch(r"Some\((\w+)\)", idarg)
+        if mm:
+            # the variable must be bound by Uuid::new_v4().to_string() in the same function
+            pre = src[:m.start()]
+            fn_start = pre.rfind("fn ")
+            ok = re.search(r"let\s+" + re.escape(mm.group(1)) + r"\s*=\s*Uuid::new_v4\(\)\s*\.\s*to_string\(\)\s*;", pre[fn_start:]) is not None
+        if not ok:
+            minted = False
+            notes.append(f"continuities.rs: {m.group(1)}(.., {idarg}, ..): the new thread id is not minted by the store")
+    body = fns.get("create_continuity_locked", "") if fns else ""
+    if not re.search(r"continuity_id\s*\.\s*unwrap_or_else\(\s*\|\|\s*Uuid::new_v4\(\)\s*\.\s*to_string\(\)\s*\)", body):
+        minted = False
+        notes.append("create_continuity_locked: `continuity_id.unwrap_or_else(|| Uuid::new_v4().to_string())` not found")
+    for name, b in (fns or {}).items():
+        # a public capability must not hand a caller-chosen id to the creators (only ensure_default/branch/handoff call them)
+        pass
+    notes.append(f"continuities.rs: {n_sites} create_continuity call site(s), id minted by the store at all: {minted}")
+    # 3. append_best_effort keys the cache file by the stream id of the event it was given
+    cp = os.path.join(repo, "crates", "ripd", "src", "continuity_stream_cache.rs")
+    keyed = False
+    if os.path.exists(cp):
+        cs = strip_tests(strip_comments(open(cp).read()))
+        cf = methods_of_impl(cs, "ContinuityStreamCache")
+        ab = cf.get("append_best_effort", "")
+        keyed = re.search(r"let\s+continuity_id\s*=\s*event\s*\.\s*stream_id\(\)\s*;", ab) is not None and \
+            re.search(r"let\s+path\s*=\s*self\s*\.\s*path_for\(\s*continuity_id\s*\)", ab) is not None and \
+            re.search(r"if\s+event\s*\.\s*stream_kind\(\)\s*!=\s*StreamKind::Continuity\s*\{\s*return\s*;", ab) is not None
+    notes.append(f"continuity_stream_cache.rs: append_best_effort keyed by event.stream_id(), continuity frames only: {keyed}")
+    return guarded, minted, keyed, notes
+
+
 def cb(b):
     return "true" if b else "false"
 
@@ -212,6 +289,11 @@ def main():
     notes += hits
     routes, rnotes = (None, []) if fns is None else route_table(a.repo, fns, reach)
     notes += rnotes
+    try:
+        guarded, minted, keyed, gnotes = sidecar_guard_facts(a.repo, fns)
+    except Exception as e:  # noqa: BLE001
+        guarded, minted, keyed, gnotes = False, False, False, [f"sidecar guard facts: {e}"]
+    notes += gnotes
     L = ["(* GENERATED by tools/gen/callgraph.py from crates/ripd/src/continuities.rs, server.rs and the cache modules - do not edit.",
          "   Which capability / route can reach `self.event_log.append` (C02, T1). *)",
          "From RipV Require Import Base.Prelude Model.Frames Model.Log Model.ContStore Model.CapEffects.", "",
@@ -225,6 +307,15 @@ def main():
          "  effects_agree gen_cap_reaches_append && negb gen_event_log_escapes && negb gen_cache_modules_name_the_log = true.",
          "Proof. vm_compute. reflexivity. Qed.", "",
          "Lemma gen_routes_ok : routes_agree gen_route_reaches_append = true.",
+         "Proof. vm_compute. reflexivity. Qed.", "",
+         "(* which ids get a cache file (Model/SidecarInv.v): every rebuild_best_effort call of continuities.rs is inside",
+         "   `if !events.is_empty()`; append_best_effort keys the file by the stream id of the event it is given",
+         "   (continuity frames only); new thread ids are minted by the store (Uuid::new_v4) at every creator call *)",
+         f"Definition gen_rebuild_guarded_by_nonempty_replay : bool := {cb(guarded)}.",
+         f"Definition gen_cache_append_keyed_by_event : bool := {cb(keyed)}.",
+         f"Definition gen_thread_ids_minted_by_store : bool := {cb(minted)}.", "",
+         "Lemma gen_sidecar_guard_ok :",
+         "  gen_rebuild_guarded_by_nonempty_replay && gen_cache_append_keyed_by_event && gen_thread_ids_minted_by_store = true.",
          "Proof. vm_compute. reflexivity. Qed."]
     os.makedirs(a.out, exist_ok=True)
     open(os.path.join(a.out, "Effects.v"), "w").write("\n".join(L) + "\n")
